@@ -3,7 +3,7 @@
 use crate::env::{self, *};
 use crate::mapdrv::MapDrv;
 use crate::setdrv::SetDrv;
-use crate::tabledrv::{ElemT, TableDrv, T0, T1, TE};
+use crate::tabledrv::{ElemT, TableDrv, T0, T0A, T1, TE};
 use crate::trace::{Event, Tracer};
 use rand::rngs::SmallRng;
 use rand::{Rng, SeedableRng};
@@ -595,6 +595,7 @@ macro_rules! dispatch_table {
             "tea64" => $f::<TE<PadA64>>($($arg),*),
             "t1" => $f::<T1>($($arg),*),
             "t0" => $f::<T0>($($arg),*),
+            "t0a" => $f::<T0A>($($arg),*),
             other => panic!("unknown table layout {}", other),
         }
     };
